@@ -401,3 +401,176 @@ Section Wf.
     apply wf_field_of. rewrite Forall_map. rewrite Forall_forall. intros x _. apply wf_s_resolve.
   Qed.
 End Wf.
+
+(** ** response values are finite; Int results are 32-bit *)
+Lemma coerce_int_range g z : gval_wf g -> coerce_int g = Some z -> in_int32 z = true.
+Proof.
+  unfold coerce_int, in_int32. destruct g as [b|k z'|d|d|s|]; intros Hw H; try discriminate.
+  - inversion H; subst. destruct b; reflexivity.
+  - cbn [gval_wf] in Hw. unfold min_int32, max_int32 in *.
+    destruct k; cbn [ikind_range fst snd] in Hw; unfold min_int32, max_int32, max_int64 in *;
+      try (inversion H; subst; lia);
+      try (destruct (Z.leb z' 2147483647) eqn:El; [|discriminate]; inversion H; subst; lia);
+      try (destruct (Z.leb (-2147483648) z' && Z.leb z' 2147483647) eqn:El; [|discriminate]; inversion H; subst; exact El).
+  - unfold dy_to_int32, in_int32 in H. destruct d as [m e| | |]; try discriminate.
+    destruct (Z.eqb m 0); [inversion H; subst; reflexivity|].
+    destruct (Z.leb 0 e).
+    + destruct (Z.ltb 40 e); [discriminate|].
+      destruct (Z.leb min_int32 (Z.shiftl m e) && Z.leb (Z.shiftl m e) max_int32) eqn:El; [|discriminate].
+      inversion H; subst. exact El.
+    + destruct (Z.eqb (Z.land m (Z.ones (- e))) 0); [|discriminate].
+      destruct (Z.leb min_int32 (Z.shiftr m (- e)) && Z.leb (Z.shiftr m (- e)) max_int32) eqn:El; [|discriminate].
+      inversion H; subst. exact El.
+  - unfold dy_to_int32, in_int32 in H. destruct d as [m e| | |]; try discriminate.
+    destruct (Z.eqb m 0); [inversion H; subst; reflexivity|].
+    destruct (Z.leb 0 e).
+    + destruct (Z.ltb 40 e); [discriminate|].
+      destruct (Z.leb min_int32 (Z.shiftl m e) && Z.leb (Z.shiftl m e) max_int32) eqn:El; [|discriminate].
+      inversion H; subst. exact El.
+    + destruct (Z.eqb (Z.land m (Z.ones (- e))) 0); [|discriminate].
+      destruct (Z.leb min_int32 (Z.shiftr m (- e)) && Z.leb (Z.shiftr m (- e)) max_int32) eqn:El; [|discriminate].
+      inversion H; subst. exact El.
+Qed.
+
+Lemma coerce_float_finite g d : coerce_float true g = Some d -> dy_finite d = true.
+Proof.
+  unfold coerce_float. destruct g as [b|k z|d'|d'|s|]; intro H; try discriminate.
+  - inversion H; subst. reflexivity.
+  - inversion H; subst. unfold round_f64. destruct (Z.ltb (Z.abs z) 9007199254740992); reflexivity.
+  - destruct (dy_finite d') eqn:Ed; [|discriminate]. inversion H; subst. exact Ed.
+  - destruct (dy_finite d') eqn:Ed; [|discriminate]. inversion H; subst. exact Ed.
+Qed.
+
+Lemma coerce_scalar_finite k g j : coerce_scalar true k g = Some j -> json_finite j = true.
+Proof.
+  unfold coerce_scalar. destruct k.
+  - destruct (coerce_int g); cbn; [intro H; inversion H; reflexivity|discriminate].
+  - destruct (coerce_float true g) as [d|] eqn:Ef; cbn; [|discriminate].
+    intro H; inversion H; subst. cbn. apply coerce_float_finite in Ef. destruct d; try discriminate. reflexivity.
+  - destruct g; try discriminate. intro H; inversion H; reflexivity.
+  - destruct g; try discriminate. intro H; inversion H; reflexivity.
+  - destruct (coerce_id g); cbn; [intro H; inversion H; reflexivity|discriminate].
+Qed.
+
+Lemma coerce_enum_finite vals g j : coerce_enum vals g = Some j -> json_finite j = true.
+Proof.
+  induction vals as [|[n v] r IH]; cbn [coerce_enum]; [discriminate|].
+  destruct (gval_eqb v g); [intro H; inversion H; reflexivity|exact IH].
+Qed.
+
+Definition fin_out (x : sout) : Prop := forall j, so_val x = Some j -> json_finite j = true.
+Definition fin_completer (s : scompleter) : Prop := forall ty fields path, fin_out (s ty fields path).
+
+Lemma fin_catch p x : fin_out x -> fin_out (s_catch p x).
+Proof.
+  intros H j. unfold s_catch. destruct (so_val x) eqn:Ev; [apply H|].
+  cbn. intro Hj. inversion Hj. reflexivity.
+Qed.
+Lemma fin_position t p x : fin_out x -> fin_out (s_position t p x).
+Proof. intro H. destruct t; cbn [s_position]; try apply fin_catch; exact H. Qed.
+
+Lemma vals_of_finite xs vs : Forall fin_out xs -> vals_of xs = Some vs -> forallb json_finite vs = true.
+Proof.
+  intro H. revert vs. induction H as [|x xs Hx _ IH]; intros vs Hv.
+  - inversion Hv. reflexivity.
+  - cbn [vals_of] in Hv. destruct (so_val x) eqn:Ex; [|discriminate].
+    destruct (vals_of xs) eqn:Er; [|discriminate]. inversion Hv; subst.
+    cbn [forallb]. rewrite (Hx _ Ex), (IH _ eq_refl). reflexivity.
+Qed.
+
+Lemma vals_of_length xs vs : vals_of xs = Some vs -> length vs = length xs.
+Proof.
+  revert vs. induction xs as [|x xs IH]; intros vs H.
+  - inversion H. reflexivity.
+  - cbn [vals_of] in H. destruct (so_val x); [|discriminate]. destruct (vals_of xs) eqn:Er; [|discriminate].
+    inversion H; subst. cbn [length]. rewrite (IH _ eq_refl). reflexivity.
+Qed.
+
+Lemma forallb_combine_snd (keys : list name) vs :
+  forallb json_finite vs = true -> forallb (fun kv : name * json => json_finite (snd kv)) (combine keys vs) = true.
+Proof.
+  revert vs. induction keys as [|k keys IH]; intros [|v vs] H; try reflexivity.
+  cbn [forallb] in H. apply andb_true_iff in H as [H1 H2]. cbn [combine forallb snd]. rewrite H1, (IH _ H2). reflexivity.
+Qed.
+
+Section Fin.
+  Variables (S : schema) (D : document) (E : env) (fuel : nat).
+
+  Lemma fin_selection_set children ot sels path :
+    (forall n, fin_completer (children n)) -> fin_out (s_selection_set S D E fuel children ot sels path).
+  Proof.
+    intros Hch j. unfold s_selection_set. destruct (s_collect S D E fuel ot sels) as [groups|]; [|discriminate].
+    cbv zeta. set (entries := flat_map (s_entry S children ot path) groups).
+    unfold s_all. destruct (vals_of (map snd entries)) as [vs|] eqn:Ev; [|discriminate].
+    cbn [so_val]. intro Hj. inversion Hj; subst. cbn [json_finite].
+    apply forallb_combine_snd. eapply vals_of_finite; [|exact Ev].
+    rewrite Forall_map. rewrite Forall_forall. intros kx Hkx.
+    unfold entries in Hkx. apply in_flat_map in Hkx as [kf [_ Hkx]].
+    unfold s_entry in Hkx. destruct (snd kf) as [|f fs]; [destruct Hkx|].
+    destruct (s_field_kind S ot (fn_name f)); cbn in Hkx; try (destruct Hkx; fail).
+    - destruct Hkx as [<-|[]]. intros j' Hj'. inversion Hj'. reflexivity.
+    - destruct Hkx as [<-|[]]. intros j' Hj'. inversion Hj'. reflexivity.
+    - destruct Hkx as [<-|[]]. cbn [snd]. apply fin_position. apply Hch.
+  Qed.
+
+  Lemma fin_view (v : sview) :
+    match sv_items v with Some items => Forall fin_completer items | None => True end ->
+    (forall n, fin_completer (sv_field v n)) ->
+    fin_completer (s_complete_view S D E fuel v).
+  Proof.
+    intros Hitems Hfields ty. induction ty as [n|t IH|t IH]; intros fields path.
+    - cbn [s_complete_view]. destruct (sv_null v); [intros j Hj; inversion Hj; reflexivity|].
+      destruct (lookup_type S n) as [[k|vals|fs ifs|fs|ms|]|]; try (intros j Hj; discriminate).
+      + destruct (coerce_scalar true k (sv_leaf v)) eqn:Ec; [|intros j Hj; discriminate].
+        intros j' Hj'. inversion Hj'; subst. eapply coerce_scalar_finite. exact Ec.
+      + destruct (coerce_enum vals (sv_leaf v)) eqn:Ec; [|intros j Hj; discriminate].
+        intros j' Hj'. inversion Hj'; subst. eapply coerce_enum_finite. exact Ec.
+      + apply fin_selection_set. exact Hfields.
+      + destruct (s_resolve_abstract S n (sv_tag v)); [apply fin_selection_set; exact Hfields|intros j Hj; discriminate].
+      + destruct (s_resolve_abstract S n (sv_tag v)); [apply fin_selection_set; exact Hfields|intros j Hj; discriminate].
+    - cbn [s_complete_view]. destruct (sv_null v); [intros j Hj; inversion Hj; reflexivity|].
+      destruct (sv_items v) as [items|]; [|intros j Hj; discriminate].
+      intros j. unfold s_all. destruct (vals_of (s_items t fields path items 0%N)) as [vs|] eqn:Ev; [|discriminate].
+      cbn [so_val]. intro Hj. inversion Hj; subst. cbn [json_finite]. eapply vals_of_finite; [|exact Ev].
+      clear Ev. generalize 0%N as i. induction items as [|c r IHr]; intro i; [constructor|].
+      inversion Hitems; subst. cbn [s_items]. constructor; [apply fin_position; apply H1|apply IHr; assumption].
+    - cbn [s_complete_view]. fold (s_complete_view S D E fuel v). specialize (IH fields path).
+      destruct (so_val (s_complete_view S D E fuel v t fields path)) as [[| | | | | | |]|] eqn:Ev;
+        try (intros j Hj; apply IH; congruence).
+      intros j Hj. discriminate.
+  Qed.
+
+  Lemma fin_resolver_error : fin_completer s_resolver_error.
+  Proof. intros ty fields path j Hj. discriminate. Qed.
+
+  Lemma fin_field_of l : Forall (fun nc => fin_completer (snd nc)) l -> forall n, fin_completer (s_field_of l n).
+  Proof.
+    intros H n. unfold s_field_of. induction H as [|[k c] l Hc _ IH]; cbn [assoc]; [apply fin_resolver_error|].
+    destruct (name_eqb n k); [exact Hc|exact IH].
+  Qed.
+
+  Lemma fin_s_complete o : fin_completer (s_complete S D E fuel o).
+  Proof.
+    induction o as [| | |g|l IH|t fs IH] using outcome_ind';
+      try (apply fin_view; cbn; [exact I|intro n; apply fin_resolver_error]).
+    - apply fin_view; cbn; [|intro n; apply fin_resolver_error]. rewrite Forall_map. exact IH.
+    - apply fin_view; cbn; [exact I|].
+      apply fin_field_of. rewrite Forall_map. eapply Forall_impl; [|exact IH].
+      intros [n o'] Ho. cbn [snd] in *. destruct o'; try exact Ho. apply fin_resolver_error.
+  Qed.
+
+  Lemma fin_s_children_of o n : fin_completer (s_children_of S D E fuel o n).
+  Proof.
+    destruct o; cbn [s_children_of]; try apply fin_resolver_error.
+    apply fin_field_of. rewrite Forall_map. rewrite Forall_forall. intros [k o'] _. cbn [snd].
+    destruct o'; try apply fin_s_complete. apply fin_resolver_error.
+  Qed.
+
+  Theorem spec_data_finite W j : data (exec_spec S D E fuel W) = Some j -> json_finite j = true.
+  Proof.
+    unfold exec_spec. destruct (s_root_type S (op_kind D)) as [rt|]; [|discriminate].
+    pose proof (fin_selection_set (s_children_of S D E fuel W) rt (op_sels D) [] (fin_s_children_of W)) as H.
+    destruct (so_val (s_selection_set S D E fuel (s_children_of S D E fuel W) rt (op_sels D) [])) eqn:Ev; [|discriminate].
+    cbn [data]. intro Hj. inversion Hj; subst. apply H. exact Ev.
+  Qed.
+End Fin.
